@@ -31,8 +31,7 @@ SHRINK_BODIES = {"shrink", "shrink_unfit", "shrink_slice"}
 RECLAIM_HELPERS = {"deallocate_assume_last"}
 
 
-def r1_settings_gates(ctx, P, D):
-    R = "C13.R1"
+def r1_settings_gates(ctx, P, D, R="C13.R1"):
     ctx.rule(R, "position writes in deallocate bodies are control dependent on S::DEALLOCATES, in shrink bodies on S::SHRINKS")
     n_d = n_s = 0
     for pw in D.external_sites():
